@@ -5164,6 +5164,660 @@ fn repeated_items(cx: &mut Ctx) {
 	}
 }
 
+// ---------------------------------------------------------------------------------------------
+// run `db`: the Readable / Writeable impls that are neither consensus nor wire objects - LMDB values
+// and small wrappers (model: lean/GrinVerif/Model/SerDb.lean): the NRD kernel index lists
+// (chain/src/linked_list.rs), BlockSums, SizeEntry, ProtocolVersion, the fixed-size byte strings and
+// integer / tuple impls of core/src/ser.rs, PeerData (p2p/src/store.rs).
+
+type NrdList = grin_chain::linked_list::ListWrapper<CommitPos>;
+type NrdEntry = grin_chain::linked_list::ListEntry<CommitPos>;
+
+impl Ty for NrdList {
+	const NAME: &'static str = "NrdList";
+	fn hash_hex(&self) -> Option<String> {
+		None
+	}
+	fn same(&self, d: &Self, _v: u32) -> bool {
+		self == d
+	}
+	fn describe(&self) -> String {
+		match self {
+			NrdList::Single { pos } => format!("S {} {}", pos.pos, pos.height),
+			NrdList::Multi { head, tail } => format!("M {} {}", head, tail),
+		}
+	}
+}
+
+fn entry_tokens(e: &NrdEntry) -> String {
+	match e {
+		NrdEntry::Head { pos, next } => format!("H {} {} {}", pos.pos, pos.height, next),
+		NrdEntry::Tail { pos, prev } => format!("T {} {} {}", pos.pos, pos.height, prev),
+		NrdEntry::Middle { pos, next, prev } => format!("Mid {} {} {} {}", pos.pos, pos.height, next, prev),
+	}
+}
+
+impl Ty for NrdEntry {
+	const NAME: &'static str = "NrdEntry";
+	fn hash_hex(&self) -> Option<String> {
+		None
+	}
+	fn same(&self, d: &Self, _v: u32) -> bool {
+		entry_tokens(self) == entry_tokens(d)
+	}
+	fn describe(&self) -> String {
+		entry_tokens(self)
+	}
+}
+
+impl Ty for grin_core::core::BlockSums {
+	const NAME: &'static str = "BlockSums";
+	fn hash_hex(&self) -> Option<String> {
+		None
+	}
+	fn same(&self, d: &Self, _v: u32) -> bool {
+		self.utxo_sum == d.utxo_sum && self.kernel_sum == d.kernel_sum
+	}
+	fn describe(&self) -> String {
+		format!("{} {}", hex(&self.utxo_sum.0), hex(&self.kernel_sum.0))
+	}
+}
+
+impl Ty for grin_store::types::SizeEntry {
+	const NAME: &'static str = "SizeEntry";
+	fn hash_hex(&self) -> Option<String> {
+		None
+	}
+	fn same(&self, d: &Self, _v: u32) -> bool {
+		self.offset == d.offset && self.size == d.size
+	}
+	fn describe(&self) -> String {
+		format!("{} {}", self.offset, self.size)
+	}
+}
+
+impl Ty for ProtocolVersion {
+	const NAME: &'static str = "ProtocolVersion";
+	fn hash_hex(&self) -> Option<String> {
+		None
+	}
+	fn same(&self, d: &Self, _v: u32) -> bool {
+		self.0 == d.0
+	}
+	fn describe(&self) -> String {
+		format!("{}", self.0)
+	}
+}
+
+impl Ty for i32 {
+	const NAME: &'static str = "I32";
+	fn hash_hex(&self) -> Option<String> {
+		None
+	}
+	fn same(&self, d: &Self, _v: u32) -> bool {
+		self == d
+	}
+	fn describe(&self) -> String {
+		format!("{}", self)
+	}
+}
+
+impl Ty for (u64, u32) {
+	const NAME: &'static str = "TupleU64U32";
+	fn hash_hex(&self) -> Option<String> {
+		None
+	}
+	fn same(&self, d: &Self, _v: u32) -> bool {
+		self == d
+	}
+	fn describe(&self) -> String {
+		format!("{} {}", self.0, self.1)
+	}
+}
+
+impl Ty for (u64, u32, u16) {
+	const NAME: &'static str = "TupleU64U32U16";
+	fn hash_hex(&self) -> Option<String> {
+		None
+	}
+	fn same(&self, d: &Self, _v: u32) -> bool {
+		self == d
+	}
+	fn describe(&self) -> String {
+		format!("{} {} {}", self.0, self.1, self.2)
+	}
+}
+
+impl Ty for (u64, u32, u16, u8) {
+	const NAME: &'static str = "TupleU64U32U16U8";
+	fn hash_hex(&self) -> Option<String> {
+		None
+	}
+	fn same(&self, d: &Self, _v: u32) -> bool {
+		self == d
+	}
+	fn describe(&self) -> String {
+		format!("{} {} {} {}", self.0, self.1, self.2, self.3)
+	}
+}
+
+macro_rules! fixed_ty {
+	($t:ty, $name:expr) => {
+		impl Ty for $t {
+			const NAME: &'static str = $name;
+			fn hash_hex(&self) -> Option<String> {
+				None
+			}
+			fn same(&self, d: &Self, _v: u32) -> bool {
+				AsRef::<[u8]>::as_ref(self) == AsRef::<[u8]>::as_ref(d)
+			}
+			fn describe(&self) -> String {
+				hex(AsRef::<[u8]>::as_ref(self))
+			}
+		}
+	};
+}
+fixed_ty!(Commitment, "Commitment");
+fixed_ty!(BlindingFactor, "BlindingFactor");
+fixed_ty!(grin_keychain::Identifier, "Identifier");
+fixed_ty!(Signature, "Signature");
+fixed_ty!(Hash, "Hash");
+
+fn pd_tokens(p: &grin_p2p::PeerData) -> String {
+	format!(
+		"{} {} {} {} {} {} {} {}",
+		addr_tokens(&p.addr),
+		p.capabilities.bits(),
+		hex(p.user_agent.as_bytes()),
+		p.flags as u8,
+		p.last_banned,
+		p.ban_reason as i32,
+		p.last_connected,
+		p.last_attempt
+	)
+}
+
+fn pd_same(a: &grin_p2p::PeerData, d: &grin_p2p::PeerData) -> bool {
+	a.addr.0 == d.addr.0
+		&& a.capabilities == d.capabilities
+		&& a.user_agent == d.user_agent
+		&& a.flags == d.flags
+		&& a.last_banned == d.last_banned
+		&& a.ban_reason == d.ban_reason
+		&& a.last_connected == d.last_connected
+		&& a.last_attempt == d.last_attempt
+}
+
+/// what reader-then-writer makes of an accepted PeerData encoding, with the reasons; `None`: the
+/// input does not have the layout. Returns (bytes up to and including the ban reason, number of
+/// trailing i64 fields present 0..2, tags)
+fn pd_norm(inp: &[u8]) -> Option<(Vec<u8>, usize, BTreeSet<&'static str>)> {
+	let (mut i, mut out, mut tags) = (0usize, vec![], BTreeSet::new());
+	if !(norm_addr(inp, &mut i, &mut out, &mut tags) && norm_caps(inp, &mut i, &mut out, &mut tags)) {
+		return None;
+	}
+	let l = u64::from_be_bytes(inp.get(i..i + 8)?.try_into().ok()?);
+	if l > 100_000 {
+		return None;
+	}
+	if !norm_copy(inp, &mut i, 8 + l as usize + 1 + 8 + 4, &mut out) {
+		return None;
+	}
+	let left = inp.len() - i;
+	let present = if left >= 16 { 2 } else if left >= 8 { 1 } else { 0 };
+	out.extend_from_slice(&inp[i..i + 8 * present]);
+	if present < 2 && left > 8 * present {
+		tags.insert("peerdata-partial-trailing-bytes-dropped");
+	}
+	if present < 2 {
+		tags.insert("peerdata-trailing-fields-optional");
+	}
+	Some((out, present, tags))
+}
+
+/// one `ser dec PeerData@<now> …` line. `now` is what the decoder took from the clock when the
+/// `last_connected` field is missing (read back from the decoded value and checked against the
+/// harness's own clock), 0 otherwise.
+fn pd_dec(cx: &mut Ctx, v: u32, bytes: &[u8], orig: Option<&grin_p2p::PeerData>, what: &str) {
+	set_env('A', false);
+	let t0 = Utc::now().timestamp();
+	let r = dec_full::<grin_p2p::PeerData>(bytes, v);
+	let t1 = Utc::now().timestamp();
+	let norm = pd_norm(bytes);
+	let now = match (&r, &norm) {
+		(Ok((x, _)), Some((_, 0, _))) => x.last_connected,
+		_ => 0,
+	};
+	let lhs = format!("ser dec PeerData@{} {} 0 A {}", now, v, hex(bytes));
+	match r {
+		Err(en) if en.starts_with("panic(") => {
+			cx.out.line(&lhs, "panic");
+			cx.oracle_fail(format!("decoder of PeerData panicked {} on {} [version {}]", en, shown(bytes), v));
+		}
+		Err(en) => {
+			cx.out.line(&lhs, &format!("err {}", en));
+			cx.stat(format!("PeerData v{} {} err:{}", v, what, en));
+			if orig.is_some() {
+				cx.oracle_fail(format!("PeerData does not decode from its own encoding: {} ({}) [version {}]", shown(bytes), en, v));
+			}
+		}
+		Ok((x, consumed)) => {
+			let (e1, e2, e3) = (enc_at(&x, 1), enc_at(&x, 2), enc_at(&x, 3));
+			cx.out.line(&lhs, &format!("ok {} {} {} {} none", consumed, show_enc(&e1), show_enc(&e2), show_enc(&e3)));
+			cx.stat(format!("PeerData v{} {} ok", v, what));
+			match (&norm, enc_at(&x, v)) {
+				(Some((head, present, tags)), Ok(re)) => {
+					// what is re-encoded: the normalised head, then the trailing fields (clock / 0 when absent)
+					let mut want = head.clone();
+					if *present == 0 {
+						if x.last_connected < t0 || x.last_connected > t1 {
+							cx.oracle_fail(format!("PeerData without a last_connected field reads it as {} although the clock says {}..{}: {} [version {}]", x.last_connected, t0, t1, shown(bytes), v));
+						}
+						want.extend_from_slice(&x.last_connected.to_be_bytes());
+					}
+					if *present < 2 {
+						want.extend_from_slice(&0i64.to_be_bytes());
+					}
+					let eaten = bytes.get(..consumed.min(bytes.len())).unwrap_or(bytes);
+					if re != want {
+						cx.oracle_fail(format!("PeerData re-encodes differently (not explained by address / capability / optional-field normalisation): in={} out={} [version {}]", shown(eaten), shown(&re), v));
+					} else if re[..] != *eaten {
+						let t: Vec<&str> = tags.iter().cloned().collect();
+						cx.stat(format!("PeerData explained-noncanonical {}", t.join("+")));
+					}
+				}
+				(_, e) => cx.oracle_fail(format!("PeerData accepted an input without the documented layout or cannot be re-encoded ({}): {} [version {}]", show_enc(&e), shown(bytes), v)),
+			}
+			if let Some(o) = orig {
+				if consumed != bytes.len() || !pd_same(o, &x) {
+					cx.oracle_fail(format!("PeerData decodes from its own encoding to a different value or leaves bytes unread: {} [version {}]", shown(bytes), v));
+				}
+			}
+		}
+	}
+}
+
+fn db_values(cx: &mut Ctx) {
+	set_env('A', false);
+	let n = if cx.thorough { 400 } else { 60 };
+	let edge: [u64; 8] = [0, 1, 255, 256, u32::MAX as u64, 1 << 32, u64::MAX - 1, u64::MAX];
+	// --- NRD kernel index lists
+	let mut lists: Vec<NrdList> = vec![];
+	let mut entries: Vec<NrdEntry> = vec![];
+	for a in edge.iter() {
+		for b in [0u64, 1, u64::MAX].iter() {
+			let pos = CommitPos { pos: *a, height: *b };
+			lists.push(NrdList::Single { pos });
+			lists.push(NrdList::Multi { head: *a, tail: *b });
+			entries.push(NrdEntry::Head { pos, next: *b });
+			entries.push(NrdEntry::Tail { pos, prev: *a });
+			entries.push(NrdEntry::Middle { pos, next: *a, prev: *b });
+		}
+	}
+	for _ in 0..n {
+		let pos = CommitPos { pos: pick_u64(&mut cx.rng), height: pick_u64(&mut cx.rng) };
+		let (a, b) = (pick_u64(&mut cx.rng), pick_u64(&mut cx.rng));
+		lists.push(if cx.rng.chance(1, 2) { NrdList::Single { pos } } else { NrdList::Multi { head: a, tail: b } });
+		entries.push(match cx.rng.below(3) {
+			0 => NrdEntry::Head { pos, next: a },
+			1 => NrdEntry::Tail { pos, prev: a },
+			_ => NrdEntry::Middle { pos, next: a, prev: b },
+		});
+	}
+	for (i, l) in lists.iter().enumerate() {
+		roundtrip_all(cx, 'A', false, l, true);
+		if let Some(b) = own_enc(cx, l, 1) {
+			if i < 40 {
+				generic_mutations::<NrdList>(cx, 1, false, 'A', &b, 20, 6);
+			}
+			// the variant byte swept: 0 and 1 are lists, 2..4 are ENTRY variants and must be refused here
+			for t in 0..=255u8 {
+				if i < 4 || t < 8 {
+					if let Some(m) = patched(&b, 0, &[t]) {
+						let mut m17 = m.clone();
+						m17.resize(17, 0xab);
+						let ex = if t > 1 { Expect::Reject } else { Expect::Any };
+						dec_case::<NrdList>(cx, 1, false, 'A', &m17, None, ex, "variant-byte");
+					}
+				}
+			}
+		}
+	}
+	for (i, e) in entries.iter().enumerate() {
+		roundtrip_all(cx, 'A', false, e, true);
+		if let Some(b) = own_enc(cx, e, 1) {
+			if i < 40 {
+				generic_mutations::<NrdEntry>(cx, 1, false, 'A', &b, 33, 6);
+			}
+			for t in 0..=255u8 {
+				if i < 4 || t < 8 {
+					if let Some(m) = patched(&b, 0, &[t]) {
+						let mut m33 = m.clone();
+						m33.resize(33, 0xcd);
+						let ex = if t < 2 || t > 4 { Expect::Reject } else { Expect::Any };
+						dec_case::<NrdEntry>(cx, 1, false, 'A', &m33, None, ex, "variant-byte");
+					}
+				}
+			}
+		}
+	}
+	// a list value is never a valid entry value and vice versa (the two tag ranges are disjoint)
+	for l in lists.iter().take(30) {
+		if let Some(b) = own_enc(cx, l, 1) {
+			let mut m = b.clone();
+			m.resize(40, 0);
+			dec_case::<NrdEntry>(cx, 1, false, 'A', &m, None, Expect::Reject, "list-as-entry");
+		}
+	}
+	for e in entries.iter().take(30) {
+		if let Some(b) = own_enc(cx, e, 1) {
+			dec_case::<NrdList>(cx, 1, false, 'A', &b, None, Expect::Reject, "entry-as-list");
+		}
+	}
+	// --- BlockSums, SizeEntry, ProtocolVersion, integers, tuples, fixed-size byte strings
+	for i in 0..n {
+		let s = grin_core::core::BlockSums { utxo_sum: commit(&mut cx.rng), kernel_sum: if i % 7 == 0 { Commitment([0; 33]) } else { commit(&mut cx.rng) } };
+		roundtrip_all(cx, 'A', false, &s, true);
+		if i < 10 {
+			if let Some(b) = own_enc(cx, &s, 1) {
+				generic_mutations::<grin_core::core::BlockSums>(cx, 1, false, 'A', &b, 66, 4);
+			}
+		}
+		let se = grin_store::types::SizeEntry { offset: if i < 8 { edge[i] } else { pick_u64(&mut cx.rng) }, size: match i % 4 { 0 => 0, 1 => u16::MAX, 2 => 114, _ => cx.rng.next() as u16 } };
+		roundtrip_all(cx, 'A', false, &se, true);
+		if i < 10 {
+			if let Some(b) = own_enc(cx, &se, 1) {
+				generic_mutations::<grin_store::types::SizeEntry>(cx, 1, false, 'A', &b, 10, 4);
+			}
+		}
+		let pv = pver(&mut cx.rng);
+		roundtrip_all(cx, 'A', false, &pv, true);
+		let z: i32 = match i % 6 { 0 => 0, 1 => -1, 2 => i32::MIN, 3 => i32::MAX, _ => cx.rng.next() as i32 };
+		roundtrip_all(cx, 'A', false, &z, true);
+		let t3 = (pick_u64(&mut cx.rng), cx.rng.next() as u32, cx.rng.next() as u16);
+		roundtrip_all(cx, 'A', false, &t3, true);
+		let t4 = (pick_u64(&mut cx.rng), cx.rng.next() as u32, cx.rng.next() as u16, cx.rng.next() as u8);
+		roundtrip_all(cx, 'A', false, &t4, true);
+		let t2 = (pick_u64(&mut cx.rng), cx.rng.next() as u32);
+		roundtrip_all(cx, 'A', false, &t2, true);
+		if i < 6 {
+			if let Some(b) = own_enc(cx, &t4, 1) {
+				generic_mutations::<(u64, u32, u16, u8)>(cx, 1, false, 'A', &b, 15, 2);
+				generic_mutations::<(u64, u32, u16)>(cx, 1, false, 'A', &b, 15, 2);
+				generic_mutations::<(u64, u32)>(cx, 1, false, 'A', &b, 15, 2);
+				generic_mutations::<i32>(cx, 1, false, 'A', &b, 5, 2);
+				generic_mutations::<ProtocolVersion>(cx, 1, false, 'A', &b, 5, 2);
+			}
+		}
+		let c = commit(&mut cx.rng);
+		roundtrip_all(cx, 'A', false, &c, i < 10);
+		let bf = BlindingFactor::from_slice(&cx.rng.bytes(32));
+		roundtrip_all(cx, 'A', false, &bf, i < 10);
+		let id = grin_keychain::Identifier::from_bytes(&cx.rng.bytes(17));
+		roundtrip_all(cx, 'A', false, &id, i < 10);
+		let sg = sig(&mut cx.rng);
+		roundtrip_all(cx, 'A', false, &sg, i < 10);
+		let h = hash32(&mut cx.rng);
+		roundtrip_all(cx, 'A', false, &h, i < 10);
+		if i < 4 {
+			let b = cx.rng.bytes(70);
+			generic_mutations::<Commitment>(cx, 1, false, 'A', &b, 70, 0);
+			generic_mutations::<BlindingFactor>(cx, 1, false, 'A', &b, 70, 0);
+			generic_mutations::<grin_keychain::Identifier>(cx, 1, false, 'A', &b, 70, 0);
+			generic_mutations::<Signature>(cx, 1, false, 'A', &b, 70, 0);
+			generic_mutations::<Hash>(cx, 1, false, 'A', &b, 70, 0);
+		}
+	}
+	// --- PeerData
+	use grin_p2p::{PeerData, State};
+	let states = [State::Healthy, State::Banned, State::Defunct, State::Unknown];
+	let mut pds: Vec<PeerData> = vec![];
+	for i in 0..n {
+		let ts = |rng: &mut Rng| -> i64 {
+			match rng.below(5) {
+				0 => 0,
+				1 => i64::MIN,
+				2 => i64::MAX,
+				3 => -1,
+				_ => 1_600_000_000 + rng.below(100_000_000) as i64,
+			}
+		};
+		pds.push(PeerData {
+			addr: gen_addr(&mut cx.rng, i as u64),
+			capabilities: if i % 3 == 0 { Capabilities::from_bits_truncate(CAPS_ALL) } else { caps_of(&mut cx.rng) },
+			user_agent: user_agent(&mut cx.rng, i),
+			flags: states[i % 4],
+			last_banned: ts(&mut cx.rng),
+			ban_reason: ALL_REASONS[i % 8],
+			last_connected: ts(&mut cx.rng),
+			last_attempt: ts(&mut cx.rng),
+		});
+	}
+	for (i, p) in pds.iter().enumerate() {
+		for v in VERSIONS.iter() {
+			set_env('A', false);
+			let e = enc_at(p, *v);
+			if i < 24 || *v == 1 {
+				cx.out.line(&format!("ser enc PeerData {} A {}", v, pd_tokens(p)), &format!("{} none", show_enc(&e)));
+			}
+			match e {
+				Ok(b) => {
+					pd_dec(cx, *v, &b, Some(p), "valid");
+					if *v == 1 && i < 30 {
+						// every truncation (the two trailing i64 are optional: all cuts from 16 bytes before the
+						// end on are ACCEPTED), flag / ban reason / capability / tag sweeps, string length field
+						let lo = if i < 6 { 0 } else { b.len().saturating_sub(40) };
+						for l in lo..b.len() {
+							pd_dec(cx, 1, &b[..l], None, "trunc");
+						}
+						let ua = p.user_agent.as_bytes().len();
+						let alen = if b[0] == 0 { 7 } else { 19 };
+						let fl_off = alen + 4 + 8 + ua;
+						for f in [0u8, 1, 2, 3, 4, 5, 128, 255].iter() {
+							if let Some(m) = patched(&b, fl_off, &[*f]) {
+								pd_dec(cx, 1, &m, None, "state-byte");
+							}
+						}
+						for r in [0i32, 1, 7, 8, -1, i32::MIN, i32::MAX, 256].iter() {
+							if let Some(m) = patched(&b, fl_off + 9, &r.to_be_bytes()) {
+								pd_dec(cx, 1, &m, None, "ban-reason");
+							}
+						}
+						for c in [0u32, CAPS_ALL, CAPS_ALL + 1, u32::MAX, 1 << 31].iter() {
+							if let Some(m) = patched(&b, alen, &c.to_be_bytes()) {
+								pd_dec(cx, 1, &m, None, "capabilities");
+							}
+						}
+						for t in [0u8, 1, 2, 255].iter() {
+							if let Some(m) = patched(&b, 0, &[*t]) {
+								pd_dec(cx, 1, &m, None, "addr-tag");
+							}
+						}
+						for l in [0u64, 1, ua as u64 + 1, 100_000, 100_001, 1 << 32, u64::MAX].iter() {
+							if let Some(m) = patched(&b, alen + 4, &l.to_be_bytes()) {
+								pd_dec(cx, 1, &m, None, "ua-length");
+							}
+						}
+						if ua > 0 && i < 12 {
+							for bad in BAD_UTF8.iter().take(12) {
+								if bad.len() <= ua {
+									if let Some(m) = patched(&b, alen + 4 + 8, bad) {
+										pd_dec(cx, 1, &m, None, "bad-utf8");
+									}
+								}
+							}
+							// bad UTF-8 AND a missing mandatory field: the I/O error comes first
+							if let Some(m) = patched(&b, alen + 4 + 8, &[0xff]) {
+								pd_dec(cx, 1, &m[..fl_off + 3], None, "bad-utf8-and-short");
+							}
+						}
+					}
+				}
+				Err(en) => cx.oracle_fail(format!("PeerData cannot be encoded: {} ({}) [version {}]", pd_tokens(p), en, v)),
+			}
+		}
+	}
+	// odd addresses inside a PeerData (mapped V6 read back as V4, flow info / scope id not carried)
+	for a in odd_addrs() {
+		let mut p = pds[1].clone();
+		p.addr = a;
+		if let Ok(b) = enc_at(&p, 1) {
+			pd_dec(cx, 1, &b, None, "odd-addr");
+		}
+	}
+}
+
+// ---------------------------------------------------------------------------------------------
+// run `impls`: the inventory of `impl … Readable for …` / `impl … Writeable for …` in the CURRENT
+// source tree (every crate's src directory, code before the first `#[cfg(test)]` of a file), one line
+// per impl with a fingerprint of its text (FNV-1a 64 over the impl block without white space). The
+// model side is the table of `Model/SerImpls.lean`: an impl the table does not list (`unlisted`), an
+// impl whose text changed (`changed`), a listed impl that is gone (the count line) are model
+// disagreements - somebody has to look at the new code and say which codec of the model covers it.
+
+fn repo_root() -> String {
+	std::env::var("VERIF_REPO").unwrap_or_else(|_| "/repo".to_string())
+}
+
+fn rs_files(dir: &std::path::Path, out: &mut Vec<std::path::PathBuf>) {
+	if let Ok(rd) = std::fs::read_dir(dir) {
+		let mut entries: Vec<std::path::PathBuf> = rd.filter_map(|e| e.ok().map(|e| e.path())).collect();
+		entries.sort();
+		for p in entries {
+			if p.is_dir() {
+				rs_files(&p, out);
+			} else if p.extension().map(|e| e == "rs").unwrap_or(false) {
+				out.push(p);
+			}
+		}
+	}
+}
+
+fn fnv64(bytes: impl Iterator<Item = u8>) -> u64 {
+	let mut h: u64 = 0xcbf29ce484222325;
+	for b in bytes {
+		h ^= b as u64;
+		h = h.wrapping_mul(0x100000001b3);
+	}
+	h
+}
+
+/// `impl<..> [path::]Readable for TYPE {` / `… where` → (kind, TYPE without white space)
+fn impl_head(line: &str) -> Option<(char, String)> {
+	let t = line.trim_start();
+	if !t.starts_with("impl") {
+		return None;
+	}
+	let rest = &t[4..];
+	// generic parameter list
+	let rest = if rest.starts_with('<') {
+		let mut depth = 0i32;
+		let mut end = None;
+		for (i, c) in rest.char_indices() {
+			match c {
+				'<' => depth += 1,
+				'>' => {
+					depth -= 1;
+					if depth == 0 {
+						end = Some(i + 1);
+						break;
+					}
+				}
+				_ => {}
+			}
+		}
+		&rest[end?..]
+	} else {
+		rest
+	};
+	let rest = rest.trim_start();
+	let (tr, after) = rest.split_once(" for ")?;
+	let tr = tr.trim();
+	let tr = tr.rsplit("::").next().unwrap_or(tr);
+	let kind = match tr {
+		"Readable" => 'R',
+		"Writeable" => 'W',
+		_ => return None,
+	};
+	let mut ty = after;
+	if let Some(i) = ty.find('{') {
+		ty = &ty[..i];
+	}
+	if let Some(i) = ty.find(" where") {
+		ty = &ty[..i];
+	}
+	let ty: String = ty.chars().filter(|c| !c.is_whitespace()).collect();
+	if ty.is_empty() {
+		return None;
+	}
+	Some((kind, ty))
+}
+
+fn impl_inventory(cx: &mut Ctx) {
+	let root = repo_root();
+	let mut n_r = 0u64;
+	let mut n_w = 0u64;
+	let mut n_files = 0u64;
+	for krate in ["api", "chain", "config", "core", "keychain", "p2p", "pool", "servers", "store", "util", "src"].iter() {
+		let dir = if *krate == "src" { format!("{}/src", root) } else { format!("{}/{}/src", root, krate) };
+		let mut files = Vec::new();
+		rs_files(std::path::Path::new(&dir), &mut files);
+		for f in files {
+			let text = match std::fs::read_to_string(&f) {
+				Ok(t) => t,
+				Err(_) => continue,
+			};
+			n_files += 1;
+			let rel = f.to_string_lossy().trim_start_matches(&root).trim_start_matches('/').to_string();
+			let lines: Vec<&str> = text.lines().collect();
+			let mut i = 0;
+			while i < lines.len() {
+				if lines[i].trim() == "#[cfg(test)]" {
+					break;
+				}
+				if let Some((kind, ty)) = impl_head(lines[i]) {
+					// the block: from the impl line to the line where the braces balance
+					let mut depth = 0i64;
+					let mut opened = false;
+					let mut j = i;
+					let mut body = String::new();
+					while j < lines.len() {
+						for c in lines[j].chars() {
+							if c == '{' {
+								depth += 1;
+								opened = true;
+							} else if c == '}' {
+								depth -= 1;
+							}
+						}
+						body.push_str(lines[j]);
+						if opened && depth <= 0 {
+							break;
+						}
+						j += 1;
+					}
+					let fp = fnv64(body.bytes().filter(|b| !b.is_ascii_whitespace()));
+					cx.out.line(&format!("ser impl {} {} {} {}", kind, rel, ty, fp), "listed");
+					if kind == 'R' {
+						n_r += 1;
+					} else {
+						n_w += 1;
+					}
+					cx.stat(format!("impls {} {}", kind, rel));
+					i = j + 1;
+					continue;
+				}
+				i += 1;
+			}
+		}
+	}
+	cx.out.line(&format!("ser implcount {} {}", n_r, n_w), "ok");
+	cx.out.raw(&format!("#STAT impls files scanned = {}", n_files));
+	if n_r < 50 {
+		cx.oracle_fail(format!("impl inventory found only {} Readable impls under {} (source tree not found?)", n_r, root));
+	}
+}
+
 fn main() {
 	quiet_panics();
 	let args: Vec<String> = std::env::args().collect();
@@ -5204,6 +5858,12 @@ fn main() {
 	}
 	if section == "all" || section == "ids" {
 		derived_ids(&mut cx);
+	}
+	if section == "all" || section == "impls" {
+		impl_inventory(&mut cx);
+	}
+	if section == "all" || section == "db" {
+		db_values(&mut cx);
 	}
 	cx.flush_gen_fails();
 	let stats = std::mem::take(&mut cx.stats);
